@@ -590,11 +590,22 @@ impl Fixture {
 		let module = build_module(ctx.clone());
 		let methods: Methods = module.into();
 		let forced_ids: Arc<Mutex<std::collections::VecDeque<Value>>> = Default::default();
+		// (with either per-connection middleware flag the server builder itself is also taken through
+		// `set_rpc_middleware` / `set_http_middleware` after the configuration was set: the configuration must survive)
+		let through_builder_setters = cfg.via_set_http_middleware || cfg.via_set_rpc_middleware;
+		let base = |c: &Cfg| {
+			let b = jsonrpsee_server::Server::builder().set_config(server_config_with_ids(c, string_ids, forced_ids.clone()));
+			if through_builder_setters {
+				b.set_rpc_middleware(jsonrpsee_server::middleware::rpc::RpcServiceBuilder::new()).set_http_middleware(tower::ServiceBuilder::new()).to_service_builder()
+			} else {
+				b.to_service_builder()
+			}
+		};
 		let builder = if cfg.limit_via_service_builder {
 			let other = Cfg { max_connections: 50, ..cfg.clone() };
-			jsonrpsee_server::Server::builder().set_config(server_config_with_ids(&other, string_ids, forced_ids.clone())).to_service_builder().max_connections(cfg.max_connections)
+			base(&other).max_connections(cfg.max_connections)
 		} else {
-			jsonrpsee_server::Server::builder().set_config(server_config_with_ids(&cfg, string_ids, forced_ids.clone())).to_service_builder()
+			base(&cfg)
 		};
 		let server_cfg = server_config_with_ids(&cfg, string_ids, forced_ids.clone());
 		let (stop, handle) = stop_channel();
